@@ -490,3 +490,64 @@ pub fn merge_cycle_cases(rng: &mut Rng, n: usize) -> Vec<GDoc> {
     }
     out
 }
+
+/// C07: 1..3 named operations that define different subsets of the variables $v0..$v2 (Boolean,
+/// now and then Int or Boolean!) and enter a graph of 2..3 fragments on Query (every edge set for 2
+/// fragments, sampled for 3, cycles included) at different fragments; fragment Fi uses $vi (and
+/// sometimes another one) in `f_Boolean_0(a: ..)` / `f_Boolean_1(a: ..)` (Boolean / Boolean!).
+pub fn variable_graph_cases(rng: &mut Rng, n: usize) -> Vec<GDoc> {
+    let usage = |v: &str, strict: bool| GSel::Field { alias: None, name: if strict { "f_Boolean_1".into() } else { "f_Boolean_0".into() },
+        args: vec![("a".to_string(), GValue::Var(v.to_string()))], dirs: vec![], sels: vec![] };
+    let mut out = vec![];
+    for i in 0..n {
+        let k = if i % 3 == 0 { 2 } else { 3 };
+        let edges: u32 = if k == 2 { (i / 3) as u32 % 16 } else { (rng.next() & 0x1FF) as u32 };
+        let mut defs = vec![];
+        let nops = rng.range(1, 3);
+        for o in 0..nops {
+            let mut vars = vec![];
+            for v in 0..k {
+                if rng.pct(60) {
+                    let ty = match rng.below(10) {
+                        0 => GType::Named("Int".into()),
+                        1 | 2 => GType::NonNull(Box::new(GType::Named("Boolean".into()))),
+                        _ => GType::Named("Boolean".into()),
+                    };
+                    vars.push(GVar { name: format!("v{}", v), ty, default: if rng.pct(15) { Some(GValue::Bool(true)) } else { None } });
+                }
+            }
+            let mut sels = vec![];
+            for f in 0..k {
+                if rng.pct(45) {
+                    let sp = GSel::Spread { name: format!("F{}", f), dirs: vec![] };
+                    sels.push(if rng.pct(30) { GSel::Inline { tc: Some("Query".into()), dirs: vec![], sels: vec![sp] } } else { sp });
+                }
+            }
+            if sels.is_empty() {
+                sels.push(GSel::Spread { name: format!("F{}", rng.below(k)), dirs: vec![] });
+            }
+            if rng.pct(25) {
+                sels.push(usage(&format!("v{}", rng.below(k)), false));
+            }
+            defs.push(GDef::Op { kind: OpKind::Query, name: Some(format!("Q{}", o)), vars, dirs: vec![], sels });
+        }
+        for f in 0..k {
+            let mut sels = vec![usage(&format!("v{}", f), rng.pct(25))];
+            if rng.pct(20) {
+                sels.push(usage(&format!("v{}", rng.below(k)), false));
+            }
+            for g in 0..k {
+                if edges & (1 << (f * k + g)) != 0 {
+                    let sp = GSel::Spread { name: format!("F{}", g), dirs: vec![] };
+                    sels.push(if rng.pct(30) { GSel::Inline { tc: None, dirs: vec![], sels: vec![sp] } } else { sp });
+                }
+            }
+            defs.push(GDef::Frag { name: format!("F{}", f), tc: "Query".into(), dirs: vec![], sels });
+        }
+        if rng.pct(30) {
+            defs.reverse();
+        }
+        out.push(GDoc(defs));
+    }
+    out
+}
